@@ -640,6 +640,18 @@ V('v13.10', 'C13', 'F', 'C13.R6', 'while loop in the splitter',
   (PARSER, 'split_equations_iter', "        hash_position = line.find('#')\n", "        hash_position = line.find('#')\n        while hash_position > 0 and line[hash_position - 1] == '\\\\':\n            hash_position = line.find('#', hash_position)\n"))
 V('v13.11', 'C13', 'F', 'C13.R3', 'KEYWORD group renamed without a Type member',
   (PARSER, '', 'P<_KEYWORD>', 'P<_KEYWORDS>'))
+V('v13.12', 'C13', 'F', 'C13.R8', "the 'always' filter is installed before catch_warnings is entered",
+  (PARSER, 'parse_model', """                with warnings.catch_warnings(record=True) as w:
+                    warnings.simplefilter('always')
+""", """                warnings.simplefilter('always')
+                with warnings.catch_warnings(record=True) as w:
+"""))
+V('v13.12b', 'C13', 'F', 'C13.R8', 'a string that names a file is read from disk',
+  (PARSER, '', "import ast\n", "import ast\nimport os\n"),
+  (PARSER, 'parse_model', "    problem_statements: List[Tuple[int, str, str]] = []\n", "    if os.path.isfile(model):\n        model = open(model).read()\n    problem_statements: List[Tuple[int, str, str]] = []\n"))
+V('v13.s3', 'C13', 'S', None, 'path objects (never strings) are read from disk',
+  (PARSER, '', "import ast\n", "import ast\nimport os\n"),
+  (PARSER, 'parse_model', "    problem_statements: List[Tuple[int, str, str]] = []\n", "    if isinstance(model, os.PathLike):\n        with open(model) as f_:\n            model = f_.read()\n    problem_statements: List[Tuple[int, str, str]] = []\n"))
 V('v13.s1', 'C13', 'S', None, 'ast.parse via compile(PyCF_ONLY_AST)',
   (PARSER, 'parse_model', 'body = ast.parse(e).body', "body = compile(e, '<string>', 'exec', ast.PyCF_ONLY_AST).body"))
 V('v13.s2', 'C13', 'S', None, 'escape inlined',
